@@ -56,15 +56,37 @@ def region_of(st, defs=None):
     return None
 
 
+def list_name(recv):
+    """name of the list a push goes to: `x` for a local, `x.f` for a field of a local struct (a record of lists is one list per field)"""
+    r = C.strip(recv)
+    while isinstance(r, dict) and r.get("k") in ("addr", "deref", "paren") and list(C.children(r)):
+        r = C.strip(list(C.children(r))[0])
+    if isinstance(r, dict) and r.get("k") == "field" and C.strip(r.get("e") or {}).get("k") == "local":
+        return ["%s.%s" % (C.strip(r["e"])["n"], r["n"])]
+    return [y["n"] for y in C.walk(recv) if y.get("k") == "local"]
+
+
 def pushes(node):
-    """(list local name, push node) for every `<local>.push(..)` / `.extend(..)` below node (also through `&mut x` selections)."""
+    """(list name, push node) for every `<list>.push(..)` / `.extend(..)` below node (also through `&mut x` selections)."""
     out = []
     for x in C.walk(node):
         if x.get("k") == "mcall" and x.get("m") in ("push", "extend", "push_str", "extend_from_slice"):
-            for y in C.walk(x["recv"]):
-                if y.get("k") == "local":
-                    out.append((y["n"], x))
+            for nm in list_name(x["recv"]):
+                out.append((nm, x))
     return out
+
+
+def holder(unit, fn, pred):
+    """fn itself, or the same-crate helper it calls (2 levels) whose body satisfies pred: where an extracted construct now lives"""
+    for g in C.fns_inl(unit, fn):
+        if pred(g):
+            return g
+    return fn
+
+
+def has_params_region(fn):
+    defs = None
+    return any(region_of(st, defs) == "PARAMS" for st in top_items(C.fn_body(fn)))
 
 
 def is_write_push(p):
@@ -74,8 +96,10 @@ def is_write_push(p):
     return False
 
 
-def method_param_order(ck, rule, fn, label, min_lists=1):
+def method_param_order(ck, rule, fn, label, min_lists=1, unit=None):
     import flow
+    if unit is not None and not has_params_region(fn):
+        fn = holder(unit, fn, has_params_region)
     items = top_items(C.fn_body(fn))
     defs = dict(flow.defs_of(fn))
     for x in C.walk(C.fn_body(fn)):
@@ -118,8 +142,7 @@ def method_param_order(ck, rule, fn, label, min_lists=1):
         ck.expect(ok, rule, "%s/%s/self<params<write" % (label, name), "regions %s" % sorted((r, first[r]) for r in regs),
                   "list `%s` is not filled in the order self -> params -> write (statement positions %s)" % (name, sorted(evs, key=lambda e: e[1])), C.loc(fn))
         # no reordering of that list anywhere in the function
-        bad = [x["m"] for x in C.walk(C.fn_body(fn)) if x.get("k") == "mcall" and x.get("m") in REORDER | {"insert"}
-               and any(y.get("k") == "local" and y.get("n") == name for y in C.walk(x["recv"])) and not (x["m"] == "rev" and False)]
+        bad = [x["m"] for x in C.walk(C.fn_body(fn)) if x.get("k") == "mcall" and x.get("m") in REORDER | {"insert"} and name in list_name(x["recv"])]
         ck.expect(not bad, rule, "%s/%s/no-reorder" % (label, name), "", "list `%s` is reordered by %s" % (name, bad), C.loc(fn))
     if checked < min_lists:
         ck.bad(rule, label + "/anchor", "no parameter list filled from self/params/write found in %s (anchor lost)" % fn["path"], C.loc(fn))
